@@ -48,7 +48,15 @@ package scheduler
 //@ func (*TreeScheduler).iterator$1
 //@   props C17
 //@   requires s != nil && s.items != nil && len(s.workchans) > 0 && (i != nil ==> typeis(i, Item))
+//@   requires cap(s.items.toDelete) == 0 || cap(s.items.toInsert) == 0 || distinctarr(s.items.toDelete, s.items.toInsert)
 //@   guardcall send#1: !(time.Unix(it.next + it.Offset, 0) > ts)
+// ... and a dispatched item always leaves the queue under the key it was dispatched with: it is
+// queued for deletion whether or not its schedule has a further occurrence (an exhausted schedule
+// reports an error and must not leave the already-run occurrence in the queue).
+//@   ensures [exhausted-item-leaves-queue] called(onErr) ==> len(s.items.toDelete) == old(len(s.items.toDelete)) + 1
+//@       && s.items.toDelete[old(len(s.items.toDelete))] == as(i, Item)
+//@   ensures [rescheduled-item-rekeyed] len(s.items.toInsert) == old(len(s.items.toInsert)) + 1 ==> len(s.items.toDelete) == old(len(s.items.toDelete)) + 1
+//@       && s.items.toDelete[old(len(s.items.toDelete))] == as(i, Item)
 
 // ---------------------------------------------------------------- the per-id index (C17)
 // "each occurrence exactly once ... not at all for occurrences after the task was released" rests
